@@ -37,6 +37,8 @@ type report struct {
 	Skipped       []string `json:"skipped"`
 	VsyncFiles    []string `json:"vsync_files"`
 	QuietLog      bool     `json:"quiet_log"`
+	StmtPoints    int      `json:"stmt_points"`
+	StmtFiles     []string `json:"stmt_point_files"`
 }
 
 func main() {
@@ -111,7 +113,12 @@ func main() {
 				astutil.AddImport(fset, f, rtPath)
 				changed = true
 			}
-			if strings.HasSuffix(fn, "client/pkg/internal/datatypes/transaction.go") || strings.HasSuffix(fn, "server/utils/local_lock.go") {
+			if stmtPointed(fn) && rewriteStmtPoints(fset, pkg, f, fn, *repo, rep) {
+				astutil.AddImport(fset, f, rtPath)
+				changed = true
+			}
+			if strings.HasSuffix(fn, "client/pkg/internal/datatypes/transaction.go") || strings.HasSuffix(fn, "client/pkg/internal/datatypes/wired.go") ||
+				strings.HasSuffix(fn, "server/utils/local_lock.go") {
 				if astutil.RewriteImport(fset, f, "sync", rtPath+"/vsync") {
 					// keep the package name `sync` for selectors
 					for _, im := range f.Imports {
@@ -297,6 +304,131 @@ func quietLog(f *ast.File) bool {
 
 // goGated: packages whose `go` statements get a gate at the start of the new goroutine, so that a
 // spawned goroutine never runs in parallel with its parent under the controlled scheduler.
+// stmtPointed lists the files whose shared fields are read and written outside any lock (C20): every
+// statement boundary becomes a scheduling point.
+func stmtPointed(fn string) bool {
+	return strings.HasSuffix(fn, "client/pkg/internal/datatypes/transaction.go") ||
+		strings.HasSuffix(fn, "client/pkg/internal/datatypes/wired.go")
+}
+
+// Fields of the datatype structs that never change after construction, and methods that only read them:
+// accesses to these do not need a scheduling point.
+var stmtImmutable = map[string]bool{"ctx": true, "Key": true, "TypeOf": true, "wire": true, "mutex": true,
+	"BaseDatatype": true, "TransactionDatatype": true, "WiredDatatype": true, "Datatype": true}
+var stmtPure = map[string]bool{"L": true, "GetKey": true, "GetType": true, "GetCUID": true}
+
+// rewriteStmtPoints inserts verifrt.Point("<file>:<line>") before every statement that directly reads or
+// writes shared state of the receiver - a mutable field of `its`, or a method of `its` defined outside the
+// statement-pointed files (its body has no points of its own) - and before every return statement (so
+// that a caller's `its.x = its.f()` can be interrupted between f's last access and the store). Statements
+// without such an access only compute on locals or call pointed functions: a switch before them is
+// equivalent to a switch at the next point (partial-order reduction).
+func rewriteStmtPoints(fset *token.FileSet, pkg *packages.Package, f *ast.File, fn, repo string, rep *report) bool {
+	changed := false
+	base := filepath.Base(fn)
+	local := map[string]bool{} // methods declared in statement-pointed files of this package
+	for i, pf := range pkg.Syntax {
+		if !stmtPointed(pkg.CompiledGoFiles[i]) {
+			continue
+		}
+		for _, d := range pf.Decls {
+			if fd, ok := d.(*ast.FuncDecl); ok && fd.Recv != nil {
+				local[fd.Name.Name] = true
+			}
+		}
+	}
+	point := func(st ast.Stmt) ast.Stmt {
+		site := fmt.Sprintf("%s:%d", base, fset.Position(st.Pos()).Line)
+		return &ast.ExprStmt{X: &ast.CallExpr{
+			Fun:  &ast.SelectorExpr{X: ast.NewIdent("verifrt"), Sel: ast.NewIdent("Point")},
+			Args: []ast.Expr{&ast.BasicLit{Kind: token.STRING, Value: fmt.Sprintf("%q", site)}},
+		}}
+	}
+	for _, d := range f.Decls {
+		fd, ok := d.(*ast.FuncDecl)
+		if !ok || fd.Body == nil || fd.Recv == nil || len(fd.Recv.List) == 0 || len(fd.Recv.List[0].Names) == 0 {
+			continue
+		}
+		recv := fd.Recv.List[0].Names[0].Name
+		shared := func(st ast.Stmt) bool {
+			if _, ok := st.(*ast.ReturnStmt); ok {
+				return true
+			}
+			found := false
+			ast.Inspect(st, func(n ast.Node) bool {
+				switch x := n.(type) {
+				case *ast.BlockStmt:
+					return ast.Node(x) == ast.Node(st) // nested blocks get their own points
+				case *ast.FuncLit:
+					return false
+				case *ast.SelectorExpr:
+					id, ok := x.X.(*ast.Ident)
+					if !ok || id.Name != recv {
+						return true
+					}
+					sel, ok := pkg.TypesInfo.Selections[x]
+					if !ok {
+						return true
+					}
+					switch sel.Kind() {
+					case types.FieldVal:
+						if !stmtImmutable[x.Sel.Name] {
+							found = true
+						}
+					case types.MethodVal:
+						if !local[x.Sel.Name] && !stmtPure[x.Sel.Name] {
+							found = true
+						}
+					}
+				}
+				return true
+			})
+			return found
+		}
+		expand := func(list []ast.Stmt) []ast.Stmt {
+			var out []ast.Stmt
+			for _, st := range list {
+				switch st.(type) {
+				case *ast.DeclStmt, *ast.EmptyStmt, *ast.LabeledStmt:
+				default:
+					if st.Pos().IsValid() && shared(st) {
+						out = append(out, point(st))
+						rep.StmtPoints++
+						changed = true
+					}
+				}
+				out = append(out, st)
+			}
+			return out
+		}
+		skip := map[*ast.BlockStmt]bool{} // the "block" of a switch / select holds clauses, not statements
+		ast.Inspect(fd.Body, func(n ast.Node) bool {
+			switch b := n.(type) {
+			case *ast.SwitchStmt:
+				skip[b.Body] = true
+			case *ast.TypeSwitchStmt:
+				skip[b.Body] = true
+			case *ast.SelectStmt:
+				skip[b.Body] = true
+			case *ast.BlockStmt:
+				if skip[b] {
+					return true
+				}
+				b.List = expand(b.List)
+			case *ast.CaseClause:
+				b.Body = expand(b.Body)
+			case *ast.CommClause:
+				b.Body = expand(b.Body)
+			}
+			return true
+		})
+	}
+	if changed {
+		rep.StmtFiles = append(rep.StmtFiles, rel(repo, fn))
+	}
+	return changed
+}
+
 func goGated(fn string) bool {
 	for _, d := range []string{"client/pkg/internal/datatypes/", "client/pkg/internal/managers/", "server/service/", "server/snapshot/"} {
 		if strings.Contains(fn, d) {
